@@ -218,7 +218,25 @@ PROPS = {
              "transport framing; oracle = the reference decoder's verdict vs. the receiver's classification, empty back-end log, no ACK, prescribed meta / error reply; non-trivial = an "
              "input whose version/type/reserved bits are valid so that only a checksum or the size rule can reject it; distinct by octet string",
         assumptions=COMMON_ASSUME + ["a frame that declares a payload checksum but carries no payload, and a payload-less write response with non-zero block size, are don't-care (document silent)"],
-        targets=[enum("enum", ["props/C07_enum.cpp"], qs=12, ts=16)],
+        targets=[
+            enum("enum", ["props/C07_enum.cpp"], qs=12, ts=16),
+            dict(name="fuzz", sources=["props/C09_fuzz.cpp"], fuzz=True, lib="fuzz", corpus="C09", max_len=600,
+                 quick=dict(shards=2, runs=40000), thorough=dict(shards=8, runs=2000000, max_total_time=240)),
+        ],
+    ),
+    "C09": dict(
+        level="exploration",
+        exhaustive_possible=False,
+        rule="cases are (transport, memory width, block size, allocation-failure pattern, octet stream) tuples run through recv/process/free until the stream is exhausted; oracle = a "
+             "reference stream walker (SLIP / varint prefix) with per-frame expectations, the allocation ledger, the recording back-end, ASan/UBSan and an endpoint-call budget; "
+             "non-trivial = a stream that reaches the back-end, triggers a resource reply (RX/TX overflow, busy) or a channel error; distinct by the serialised case",
+        assumptions=COMMON_ASSUME + ["blocks smaller than a full header (capacity < 16 octets) cannot produce the receive-overflow response: only 'no access' and the error id are asserted there; "
+                                     "replies to over-long or unallocatable frames that are not well-formed requests are don't-care"],
+        targets=[
+            enum("enum", ["props/C09_enum.cpp"], qs=12, ts=16),
+            dict(name="fuzz", sources=["props/C09_fuzz.cpp"], fuzz=True, lib="fuzz", corpus="C09", max_len=1400,
+                 quick=dict(shards=4, runs=60000), thorough=dict(shards=16, runs=3000000, max_total_time=300)),
+        ],
     ),
 }
 
@@ -376,6 +394,15 @@ MANIFEST_TEXT = {
                    "extension of each corpus frame is pushed through SLIP, regp_recv and regp_process; no such frame may reach the back-end or be acknowledged, and the receiver's "
                    "classification and reply must equal those derived from an independent decoder of doc/regp.txt. The same differential oracle runs over all option-bit/checksum/length "
                    "combinations on both transports and over random and coverage-guided octet strings.",
+        level_note=NOTE_COMMON,
+    ),
+    "C09": dict(
+        engine="libFuzzer + enum",
+        technique="coverage-guided structure-aware fuzzing (libFuzzer, ASan+UBSan) with a reference stream walker as in-target oracle + enumeration of block-size / transmit-limit / allocation-failure / truncation boundaries",
+        level_text="Arbitrary and mutated-valid octet streams are decoded by an independent walker (SLIP, varint prefix, frame decoder of doc/regp.txt) that predicts for every regp_recv call "
+                   "whether a frame, a channel error or the end of the stream follows and what must happen (accesses, overflow/busy replies, error ids); exact-size blocks from a ledger "
+                   "allocator with a scriptable failure pattern make every out-of-bounds access, leak and double release visible. Boundaries (frame length around capacity, read size around "
+                   "the limit, failure at each allocation, every truncation point) are enumerated; the rest is explored by the fuzzer.",
         level_note=NOTE_COMMON,
     ),
 }
